@@ -44,12 +44,79 @@ Proof.
   destruct (how =? 4); repeat split; nia.
 Qed.
 
+(* ---- read_from, both outcomes: Err leaves the receiver exactly as it was, Ok leaves it well formed ---- *)
+Lemma read_preserves (v : vhdr) (h : stream_hdr) (avail : Z) :
+  wf_v v -> Inv v -> v_w v = 8 -> wf_s h ->
+  wf_v (apply_read v (v_read_from v h avail)) /\ Inv (apply_read v (v_read_from v h avail)) /\
+  v_len (apply_read v (v_read_from v h avail)) = v_len v /\
+  (v_read_from v h avail = RErr -> apply_read v (v_read_from v h avail) = v).
+Proof.
+  intros Hwf HI Hw8 Hs. destruct (v_read_from v h avail) as [|v'] eqn:E; cbn [apply_read].
+  - split; [exact Hwf|]. split; [exact HI|]. split; reflexivity.
+  - destruct (read_from_establishes_inv v v' h avail Hwf Hw8 Hs E) as (A & B & C & _).
+    split; [exact A|]. split; [exact B|]. split; [exact C|discriminate].
+Qed.
+
+Lemma m_read_preserves (m : mhdr) (n size rows cin cout len avail : Z) :
+  InvM m -> m_w m = 8 ->
+  InvM (m_apply_read m (m_read_from m n size rows cin cout len avail)) /\
+  m_len (m_apply_read m (m_read_from m n size rows cin cout len avail)) = m_len m /\
+  (m_read_from m n size rows cin cout len avail = None -> m_apply_read m (m_read_from m n size rows cin cout len avail) = m).
+Proof.
+  intros HI Hw8. destruct (m_read_from m n size rows cin cout len avail) as [m'|] eqn:E; cbn [m_apply_read].
+  - destruct (mat_read_from_inv m m' n size rows cin cout len avail Hw8 E) as (A & B).
+    split; [exact A|]. split; [exact B|discriminate].
+  - split; [exact HI|]. split; reflexivity.
+Qed.
+
+(* the seeded faulty reader (seeded/C17d): MatZnx::read_from assigns the five shape fields after the header consistency
+   check but BEFORE the buffer-length check; result = the receiver after the call, whatever it returned *)
+Definition m_read_from_commit_early (m : mhdr) (n size rows cin cout len : Z) : mhdr :=
+  let expected := rows * cin * n * cout * size * 8 in
+  if (U64 <=? expected) || negb (expected =? len) then m else mkM n rows cin cout size (m_len m) (m_w m).
+Lemma read_commit_early_refuted :
+  exists m n size rows cin cout len,
+    wf_m m /\ InvM m /\ m_w m = 8 /\ m_read_from m n size rows cin cout len len = None /\
+    ~ InvM (m_read_from_commit_early m n size rows cin cout len).
+Proof.
+  exists (m_alloc 16 2 1 2 2 8), 16, 3, 2, 1, 2, (2 * 1 * 16 * 2 * 3 * 8).
+  split; [unfold wf_m, m_alloc, round64, m_bytes_of; cbn; lia|].
+  split; [unfold InvM, m_alloc, round64, m_bytes_of; cbn; lia|].
+  split; [reflexivity|]. split; [vm_compute; reflexivity|].
+  unfold InvM, m_read_from_commit_early, m_alloc, round64, m_bytes_of; cbn. lia.
+Qed.
+
+Lemma bump3_nonneg (n cols size how : Z) : 0 <= n -> 0 <= cols -> 0 <= size ->
+  let '(n2, c2, s2) := bump3 n cols size how in 0 <= n2 /\ 0 <= c2 /\ 0 <= s2.
+Proof. intros. unfold bump3. destruct (how =? 0); [repeat split; lia|]. destruct (how =? 1); repeat split; lia. Qed.
+
+Lemma read_larger_inv (rc : vhdr) (how : Z) :
+  wf_v rc -> Inv rc -> v_w rc = 8 -> wf_v (read_larger rc how) /\ Inv (read_larger rc how) /\ v_len (read_larger rc how) = v_len rc.
+Proof.
+  intros Hwf HI Hw8. unfold read_larger.
+  pose proof Hwf as (Hn & Hc & Hs & _).
+  pose proof (bump3_nonneg (v_n rc) (v_cols rc) (v_size rc) how Hn Hc Hs) as Hb.
+  destruct (bump3 (v_n rc) (v_cols rc) (v_size rc) how) as [[n2 c2] s2]. destruct Hb as (B1 & B2 & B3).
+  destruct (read_preserves rc (mkS n2 c2 s2 s2 (n2 * c2 * s2 * 8)) (n2 * c2 * s2 * 8) Hwf HI Hw8) as (A & B & C & _).
+  { unfold wf_s; cbn. auto. }
+  auto.
+Qed.
+
+Lemma m_read_larger_inv (m : mhdr) (how : Z) :
+  InvM m -> m_w m = 8 -> InvM (m_read_larger m how) /\ m_len (m_read_larger m how) = m_len m.
+Proof.
+  intros HI Hw8. unfold m_read_larger.
+  destruct (bump5 (m_n m) (m_size m) (m_rows m) (m_cin m) (m_cout m) how) as [[[[n2 s2] r2] ci2] co2].
+  destruct (m_read_preserves m n2 s2 r2 ci2 co2 (r2 * ci2 * n2 * co2 * s2 * 8) (r2 * ci2 * n2 * co2 * s2 * 8) HI Hw8) as (A & B & _). auto.
+Qed.
+
 (* all histories: fresh view, shrink, reallocate, write/read with any capacities, corrupted header, grown to max_size,
-   carved, shifted, header refactored, other ring degree, and from_data of a layout that validates (chk) *)
-Lemma histories_inv (vec chk : bool) (n cols size w hist hp1 hp2 : Z) (v : vhdr) :
+   carved, shifted, header refactored, other ring degree, the rejected read of a larger object (13), and from_data of a
+   layout that validates (chk) *)
+Lemma histories_inv (vec chk ser : bool) (n cols size w hist hp1 hp2 : Z) (v : vhdr) :
   0 <= n -> 0 <= cols -> 0 <= size -> 0 < w -> 0 <= hp1 -> 0 <= hp2 ->
   (hist = 9 -> chk = true) ->
-  hist_hdr vec chk n cols size w (cols * size) hist hp1 hp2 = HOk v -> wf_v v /\ Inv v.
+  hist_hdr vec chk ser n cols size w (cols * size) hist hp1 hp2 = HOk v -> wf_v v /\ Inv v.
 Proof.
   intros Hn Hc Hs Hw H1 H2 H9. unfold hist_hdr.
   destruct (Z.eqb_spec hist 0); [intros E; inversion E; subst; apply plain_inv; assumption|].
@@ -65,6 +132,10 @@ Proof.
     apply (from_data_checked_inv (Z.max 0 (n * (cols * size) * w - 8 * hp1)) n cols size w v); try assumption. lia. }
   destruct (Z.eqb_spec hist 11).
   { intros E; inversion E; subst. destruct (hp1 =? 0); apply plain_inv; try assumption; lia. }
+  destruct (Z.eqb_spec hist 13).
+  { destruct ser; [|discriminate]. intros E; inversion E; subst.
+    destruct (alloc_inv n cols size 8 Hn Hc Hs ltac:(lia)) as (A & B).
+    destruct (read_larger_inv (v_alloc n cols size 8) hp1 A B eq_refl) as (C & D & _). auto. }
   destruct vec; cbn [negb]; [|discriminate].
   destruct (Z.eqb_spec hist 2).
   { intros E; inversion E; subst.
@@ -89,7 +160,7 @@ Qed.
 
 (* what remains open: from_data of VecZnxBig / VecZnxDft / SvpPPol / MatZnx / VmpPMat / CnvPVec on a short buffer *)
 Lemma history_from_data_unchecked_refuted :
-  exists n cols size w hp1 v, 0 < w /\ hist_hdr false false n cols size w (cols * size) 9 hp1 0 = HOk v /\ ~ Inv v.
+  exists n cols size w hp1 v, 0 < w /\ hist_hdr false false false n cols size w (cols * size) 9 hp1 0 = HOk v /\ ~ Inv v.
 Proof.
   exists 4, 1, 1, 16, 1, (mkV 4 1 1 1 56 16). split; [lia|]. split; [vm_compute; reflexivity|].
   unfold Inv; cbn. lia.
